@@ -46,6 +46,7 @@ type FaultA struct {
 	Step int `json:"step"` // script step after whose start the fault is placed
 	K    int `json:"k"`    // the k-th exchange after that step starts (0-based)
 	Fate int `json:"fate"`
+	Len  int `json:"len,omitempty"` // >1: an outage, this many consecutive exchanges share the fate
 }
 
 type CaseA struct {
@@ -65,7 +66,11 @@ func (c CaseA) String() string {
 	}
 	var f []string
 	for _, x := range c.Faults {
-		f = append(f, fmt.Sprintf("%s@step%d+%d", world.Fate(x.Fate), x.Step, x.K))
+		if x.Len > 1 {
+			f = append(f, fmt.Sprintf("%sx%d@step%d+%d", world.Fate(x.Fate), x.Len, x.Step, x.K))
+		} else {
+			f = append(f, fmt.Sprintf("%s@step%d+%d", world.Fate(x.Fate), x.Step, x.K))
+		}
 	}
 	return fmt.Sprintf("A ops=[%s] faults=[%s]", strings.Join(o, " "), strings.Join(f, " "))
 }
@@ -254,7 +259,9 @@ func executeA(t *testing.T, c CaseA) (kind, detail string) {
 			fmu.Lock()
 			for _, f := range c.Faults {
 				if f.Step == si {
-					plan[dg.Exchanges+1+f.K] = world.Fate(f.Fate)
+					for j := 0; j < max(1, f.Len); j++ {
+						plan[dg.Exchanges+1+f.K+j] = world.Fate(f.Fate)
+					}
 				}
 			}
 			fmu.Unlock()
@@ -288,7 +295,10 @@ func executeA(t *testing.T, c CaseA) (kind, detail string) {
 		if !check("closure", true) {
 			return
 		}
-		// absorption: isolated faults must not surface as failures
+		// absorption: isolated faults must not surface as failures (an outage may)
+		if len(c.Faults) != 1 || c.Faults[0].Len > 1 {
+			return
+		}
 		_, _, e1 := cs.accepted()
 		_, _, e2 := ss.accepted()
 		if len(e1)+len(e2) > 0 {
@@ -569,14 +579,25 @@ func casesA(thorough bool, f int) []CaseA {
 	var out []CaseA
 	for _, s := range scripts {
 		out = append(out, CaseA{Layer: "A", Ops: s})
+		// outages: the path loses every query / answer for several consecutive exchanges, enough to
+		// exhaust the client's five retransmissions, then recovers
+		for step := range s {
+			for k := 0; k < 2; k++ {
+				for _, fate := range []int{int(world.QueryLost), int(world.AnswerLost)} {
+					for _, l := range []int{5, 8} {
+						out = append(out, CaseA{Layer: "A", Ops: s, Faults: []FaultA{{Step: step, K: k, Fate: fate, Len: l}}})
+					}
+				}
+			}
+		}
 		for step := range s {
 			for k := 0; k < 4; k++ {
 				for fate := 1; fate < int(world.NumFates); fate++ {
-					out = append(out, CaseA{Layer: "A", Ops: s, Faults: []FaultA{{step, k, fate}}})
+					out = append(out, CaseA{Layer: "A", Ops: s, Faults: []FaultA{{Step: step, K: k, Fate: fate}}})
 					if thorough && len(s) <= 2 {
 						for k2 := k + 1; k2 < 4; k2++ {
 							for fate2 := 1; fate2 <= 3; fate2++ {
-								out = append(out, CaseA{Layer: "A", Ops: s, Faults: []FaultA{{step, k, fate}, {step, k2, fate2}}})
+								out = append(out, CaseA{Layer: "A", Ops: s, Faults: []FaultA{{Step: step, K: k, Fate: fate}, {Step: step, K: k2, Fate: fate2}}})
 							}
 						}
 					}
